@@ -1,5 +1,6 @@
 import StrettoModel.Model.Keys
 import StrettoModel.Proofs.Cache
+import StrettoModel.Props.C02
 /-!
 # C18 — Keys hash deterministically and colliding keys stay isolated
 
@@ -83,10 +84,283 @@ theorem collision_remove_isolated (c : Cache) (su : Nat → Nat → Bool) (est :
     have : (c.store.expiration k).isNone = false := by simp [Store.expiration, he]
     simp [this]
 
+-- over every step of every actor ------------------------------------------------------------------
+
+/-- **a colliding key never touches the other key's entry — over every step of every actor**: while an
+index hash stays resident, its entry (conflict hash, value, TTL) changes only when that very step is a
+client write — `insert` / `insert_if_present` (update in place) or a write through `get_mut` — addressed
+to that index *with a compatible conflict hash* (the stored one, or the wildcard 0). A caller presenting
+another conflict hash — the colliding key — changes nothing under the index, whatever it calls and
+whenever the processor applies what it queued (`New`, `Update`, `Delete` items, stale ones included); nor
+do the sweep, evictions of other keys, clears or the workers. (`Inv06`, every resident entry is charged,
+holds in every reachable state: C06.) -/
+theorem entry_changes_only_by_compatible_write (su : Nat → Nat → Bool) (c c' : Cache) (a : Act)
+    (hs : c.step su a = some c') (hinv : Inv06 c) (k : Nat) (e e' : Entry)
+    (he : c.store.items.get k = some e) (he' : c'.store.items.get k = some e') (hne : e' ≠ e) :
+    (∃ cf v cost ttl now coster only, a = Act.insert k cf v cost ttl now coster only ∧ Store.conflictOk cf e = true) ∨
+    (∃ cf now v, a = Act.getMut k cf now v ∧ Store.conflictOk cf e = true) := by
+  -- if the entry of `k` is literally the old one, the value did not change
+  have keep : (c'.store.items.get k = some e' → c.store.items.get k = some e') → False := by
+    intro h; have := h he'; rw [this] at he; cases he; exact hne rfl
+  cases a with
+  | insert k' cf v cost ttl now coster only =>
+    simp only [Cache.step, Option.some.injEq] at hs; subst hs
+    have hstore : ∀ j x, (c.store.tryUpdate su k' v cf { d := ttl, created := now }).1.items.get j = some x →
+        c.store.items.get j = some x ∨ (j = k' ∧ ∃ e0, c.store.items.get k' = some e0 ∧ Store.conflictOk cf e0 = true) := by
+      intro j x hjx
+      unfold Store.tryUpdate at hjx
+      cases hg : c.store.items.get k' with
+      | none => simp only [hg] at hjx; left; exact hjx
+      | some e0 =>
+        simp only [hg] at hjx
+        split at hjx
+        · left; exact hjx
+        · rename_i hcf
+          split at hjx
+          · left; exact hjx
+          · simp only [KMap.get_set] at hjx
+            split at hjx
+            · right; rename_i hjk; exact ⟨hjk, e0, rfl, by simpa using hcf⟩
+            · left; exact hjx
+    have key : c.store.items.get k = some e' ∨ (k = k' ∧ ∃ e0, c.store.items.get k' = some e0 ∧ Store.conflictOk cf e0 = true) := by
+      unfold Cache.insert at he'
+      split at he'
+      · left; exact he'
+      · unfold Cache.insertBody at he'
+        simp only [] at he'
+        split at he'
+        · left; exact he'
+        · split at he'
+          · split at he' <;> exact hstore k e' (by simpa using he')
+          · split at he'
+            · left; exact he'
+            · split at he'
+              · left; exact he'
+              · left; simpa using he'
+    rcases key with h | ⟨h1, h2⟩
+    · exact absurd (fun _ => h) (fun f => keep f)
+    · subst h1; left
+      obtain ⟨e0, h3, h4⟩ := h2
+      rw [he] at h3; cases h3
+      exact ⟨cf, v, cost, ttl, now, coster, only, rfl, h4⟩
+  | get k' cf now =>
+    simp only [Cache.step, Option.some.injEq] at hs; subst hs
+    exfalso; apply keep; intro h
+    unfold Cache.get at h
+    split at h
+    · exact h
+    · simp only [] at h; split at h <;> simpa using h
+  | getMut k' cf now v =>
+    simp only [Cache.step, Option.some.injEq] at hs; subst hs
+    have key : c.store.items.get k = some e' ∨ (k = k' ∧ ∃ e0, c.store.items.get k' = some e0 ∧ Store.conflictOk cf e0 = true) := by
+      unfold Cache.getMutWrite at he'
+      split at he'
+      · left; exact he'
+      · simp only [] at he'
+        split at he'
+        · left; simpa using he'
+        · simp only [Cache.met_store, Cache.ringPush_store] at he'
+          unfold Store.getMutWrite at he'
+          cases hl : c.store.lookup k' cf now with
+          | none => simp only [hl] at he'; left; exact he'
+          | some e0 =>
+            simp only [hl, KMap.get_set] at he'
+            split at he'
+            · rename_i hjk; right
+              obtain ⟨h3, h4, _⟩ := Store.lookup_some c.store k' cf now e0 hl
+              exact ⟨hjk, e0, h3, h4⟩
+            · left; exact he'
+    rcases key with h | ⟨h1, h2⟩
+    · exact absurd (fun _ => h) (fun f => keep f)
+    · subst h1; right
+      obtain ⟨e0, h3, h4⟩ := h2
+      rw [he] at h3; cases h3
+      exact ⟨cf, now, v, rfl, h4⟩
+  | remove k' cf =>
+    simp only [Cache.step, Option.some.injEq] at hs; subst hs
+    exfalso; apply keep; intro h
+    unfold Cache.remove at h
+    split at h
+    · exact h
+    · simp only [] at h
+      have hres : ∀ x, (c.store.tryRemove k' cf).1.items.get k = some x → c.store.items.get k = some x := by
+        intro x hx
+        rw [Store.tryRemove_get] at hx
+        split at hx
+        · cases hx
+        · exact hx
+      cases hr : (c.store.tryRemove k' cf).2 with
+      | none => simp only [hr] at h; split at h <;> first | exact hres _ (by simpa using h) | (simpa using h)
+      | some e0 => simp only [hr] at h; split at h <;> first | exact hres _ (by simpa using h) | (simpa using h)
+  | waitEnq id =>
+    simp only [Cache.step, Option.some.injEq] at hs; subst hs
+    exfalso; apply keep; intro h
+    unfold Cache.waitEnq at h
+    split at h
+    · exact h
+    · split at h <;> exact h
+  | clearReq id =>
+    simp only [Cache.step, Option.some.injEq] at hs; subst hs
+    exfalso; apply keep; intro h
+    unfold Cache.clearReq at h; split at h <;> exact h
+  | closeBegin id =>
+    simp only [Cache.step, Option.some.injEq] at hs; subst hs
+    exfalso; apply keep; intro h
+    unfold Cache.closeBegin at h; split at h <;> exact h
+  | updateMaxCost mc =>
+    simp only [Cache.step, Option.some.injEq] at hs; subst hs
+    exfalso; exact keep (fun h => h)
+  | procItem est refills =>
+    simp only [Cache.step, Cache.procItem] at hs
+    split at hs
+    · cases hs
+    · split at hs
+      · cases hs
+      · rename_i it rest hb
+        simp only [Option.some.injEq] at hs; subst hs
+        have hf := admitPending_frame ({ c with buf := rest } : Cache)
+        exfalso; apply keep; intro h
+        cases it with
+        | wait w => simpa [Cache.handleItem, hf.1] using h
+        | update k' cost ext => simpa [Cache.handleItem, hf.1] using h
+        | delete k' cf =>
+          simp only [Cache.handleItem] at h
+          have : (({ c with buf := rest } : Cache).admitPending.store.tryRemove k' cf).1.items.get k = some e' := by
+            cases hr : (({ c with buf := rest } : Cache).admitPending.store.tryRemove k' cf).2 <;>
+              (simp only [hr] at h; split at h <;> simpa using h)
+          rw [Store.tryRemove_get] at this
+          split at this
+          · cases this
+          · rw [hf.1] at this; exact this
+        | new k' cf cost v exp =>
+          by_cases hk : k' = k
+          · subst hk
+            have hch : ((({ c with buf := rest } : Cache).admitPending).lfu.costs.get k').isSome = true := by
+              rw [hf.2.1]; exact hinv.resident_charged k' (by simp [he])
+            have hli : (({ c with buf := rest } : Cache).admitPending).lfu.Inv := by rw [hf.2.1]; exact hinv.lfuInv
+            rw [C02.handleNew_charged_store _ su est refills k' cf cost v exp hli hch, hf.1] at h
+            exact h
+          · simp only [Cache.handleItem] at h
+            have hpre : ∀ (c2 : Cache), c2.store = ({ c with buf := rest } : Cache).admitPending.store ∨
+                c2.store = (({ c with buf := rest } : Cache).admitPending.store.tryInsert su k' v cf exp) →
+                c2.store.items.get k = some e' → c.store.items.get k = some e' := by
+              intro c2 hc2 hj2
+              rcases hc2 with hc2 | hc2
+              · rw [hc2, hf.1] at hj2; exact hj2
+              · rw [hc2] at hj2
+                rcases C02.tryInsert_get _ su k' v cf exp k e' hj2 with h1 | ⟨h1, _⟩
+                · rw [hf.1] at h1; exact h1
+                · exact absurd h1.symm hk
+            split at h
+            · have h' := C02.evictVictims_get _ _ k e' h
+              split at h'
+              · split at h'
+                · exact hpre _ (Or.inr (by simp)) h'
+                · exact hpre _ (Or.inr (by simp)) h'
+              · exact hpre _ (Or.inl (by simp)) h'
+            · split at h
+              · split at h
+                · exact hpre _ (Or.inr (by simp)) h
+                · exact hpre _ (Or.inr (by simp)) h
+              · exact hpre _ (Or.inl (by simp)) h
+  | procClear =>
+    simp only [Cache.step] at hs
+    obtain ⟨h1, _, _⟩ := C02.procClear_empty c c' hs
+    rw [h1 k] at he'; cases he'
+  | procTick now order =>
+    simp only [Cache.step, Cache.procTick] at hs
+    split at hs
+    · cases hs
+    · simp only [Option.some.injEq] at hs; subst hs
+      exfalso; apply keep; intro h
+      have hd := deliverEvictions_frame
+        ((({ c with store := { c.store with em := (c.store.em.tryCleanup now).1 } } : Cache).sweepKeys now order []).2.reverse)
+        (({ c with store := { c.store with em := (c.store.em.tryCleanup now).1 } } : Cache).sweepKeys now order []).1
+      rw [hd.1] at h
+      simpa using C02.sweepKeys_get order _ now [] k e' h
+  | procStop =>
+    simp only [Cache.step, Cache.procStop] at hs
+    split at hs
+    · cases hs
+    · simp only [Option.some.injEq] at hs; subst hs
+      exfalso; exact keep (fun h => h)
+  | policyWorker =>
+    simp only [Cache.step, Cache.policyWorkerStep] at hs
+    cases hp : c.pq with
+    | nil => simp [hp] at hs
+    | cons b rest =>
+      simp only [hp, Option.map_some, Option.some.injEq] at hs; subst hs
+      exfalso; exact keep (fun h => h)
+  | policyClose =>
+    simp only [Cache.step, Option.some.injEq] at hs; subst hs
+    exfalso; exact keep (fun h => h)
+
+/-- corollary: whatever a caller presenting another (non-zero) conflict hash does in one step, the entry
+under the index is the same afterwards if the index is still resident -/
+theorem colliding_caller_leaves_entry (su : Nat → Nat → Bool) (c c' : Cache) (hinv : Inv06 c) (k c2 : Nat) (e e' : Entry)
+    (he : c.store.items.get k = some e) (hne : c2 ≠ e.conflict) (hnz : c2 ≠ 0) (a : Act)
+    (ha : (∃ v cost ttl now coster only, a = Act.insert k c2 v cost ttl now coster only) ∨
+          (∃ now v, a = Act.getMut k c2 now v) ∨ (∃ now, a = Act.get k c2 now) ∨ a = Act.remove k c2)
+    (hs : c.step su a = some c') (he' : c'.store.items.get k = some e') : e' = e := by
+  have hok : Store.conflictOk c2 e = false := by simp [Store.conflictOk, hne, hnz]
+  cases hd : decide (e' = e) with
+  | true => exact of_decide_eq_true hd
+  | false =>
+    exfalso
+    have hne' : e' ≠ e := of_decide_eq_false hd
+    rcases entry_changes_only_by_compatible_write su c c' a hs hinv k e e' he he' hne' with
+      ⟨cf, v, cost, ttl, now, coster, only, h1, h2⟩ | ⟨cf, now, v, h1, h2⟩
+    · rcases ha with ⟨v', cost', ttl', now', coster', only', h3⟩ | ⟨now', v', h3⟩ | ⟨now', h3⟩ | h3
+      · rw [h3] at h1; cases h1; rw [hok] at h2; cases h2
+      · rw [h3] at h1; cases h1
+      · rw [h3] at h1; cases h1
+      · rw [h3] at h1; cases h1
+    · rcases ha with ⟨v', cost', ttl', now', coster', only', h3⟩ | ⟨now', v', h3⟩ | ⟨now', h3⟩ | h3
+      · rw [h3] at h1; cases h1
+      · rw [h3] at h1; cases h1; rw [hok] at h2; cases h2
+      · rw [h3] at h1; cases h1
+      · rw [h3] at h1; cases h1
+
+/-- the same in every reachable state (the invariant is C06's): from the builder's state, after any run of
+any actors with the processor alive, a step changes a resident entry only if it is a client write to
+that index with a compatible conflict hash -/
+theorem reachable_entry_changes_only_by_compatible_write (su : Nat → Nat → Bool) (cfg : Cfg) (maxCost : Int)
+    (samples : Nat) (c : Cache) (hr : C06.Run su (Cache.init cfg maxCost samples) c) (halive : c.procExited = false)
+    (c' : Cache) (a : Act) (hs : c.step su a = some c') (k : Nat) (e e' : Entry)
+    (he : c.store.items.get k = some e) (he' : c'.store.items.get k = some e') (hne : e' ≠ e) :
+    (∃ cf v cost ttl now coster only, a = Act.insert k cf v cost ttl now coster only ∧ Store.conflictOk cf e = true) ∨
+    (∃ cf now v, a = Act.getMut k cf now v ∧ Store.conflictOk cf e = true) := by
+  rcases C06.reachable_good su _ c (C06.init_good cfg maxCost samples) hr with hx | hinv
+  · rw [halive] at hx; cases hx
+  · exact entry_changes_only_by_compatible_write su c c' a hs hinv k e e' he he' hne
+
 -- non-vacuity ---------------------------------------------------------------------------------
 example : transparentBuildKey (-1) = (18446744073709551615, 0) := by decide
 example : IntTy.i8.InRange (-128) ∧ transparentIndex (-128) = 18446744073709551488 := by
   refine ⟨⟨by decide, by decide⟩, by decide⟩
+
+/-- a reachable state with a resident entry under (5, conflict 1), and a colliding caller (5, conflict 2)
+whose update is refused: the premises of the run-level theorems are met by a concrete history -/
+def exCfg : Cfg := { itemSize := 56, ignoreInternal := true, bufCap := 4, ringCap := 2, pqCap := some 3, metricsOn := true }
+def exC1 : Cache := ((Cache.init exCfg 100 5).insert (fun _ _ => true) 5 1 77 1 0 10 0 false).1
+def exC2 : Cache := ((exC1.procItem (fun _ _ => true) (fun _ => 0) []).getD exC1)
+example : exC2.store.items.get 5 = some ⟨1, 77, ⟨0, 10⟩⟩ := by decide
+example : exC2.procExited = false := by decide
+example : ((exC2.insert (fun _ _ => true) 5 2 99 1 0 11 0 false).1.store.items.get 5) = some ⟨1, 77, ⟨0, 10⟩⟩ := by decide
+example : C06.Run (fun _ _ => true) (Cache.init exCfg 100 5) exC2 := by
+  refine C06.Run.step _ exC1 _ (.procItem (fun _ => 0) []) (C06.Run.step _ _ _ (.insert 5 1 77 1 0 10 0 false) (C06.Run.refl _) trivial rfl) ?_ ?_
+  · intro it rest hb
+    have : exC1.buf = [Item.new 5 1 1 77 ⟨0, 10⟩] := by decide
+    rw [this] at hb; cases hb
+    intro vs hvs v hv
+    have h0 : (policyAdd (({ exC1 with buf := [] } : Cache).admitPending).lfu (fun _ => 0) 5
+      ((({ exC1 with buf := [] } : Cache).admitPending).internalCost 1) []).victims = none := by decide
+    rw [h0] at hvs; cases hvs
+  · show exC1.procItem (fun _ _ => true) (fun _ => 0) [] = some exC2
+    have hsome : (exC1.procItem (fun _ _ => true) (fun _ => 0) []).isSome = true := by decide
+    cases hp : exC1.procItem (fun _ _ => true) (fun _ => 0) [] with
+    | none => rw [hp] at hsome; cases hsome
+    | some c => simp [exC2, hp]
 
 end Stretto.C18
 
@@ -95,3 +369,6 @@ end Stretto.C18
 #print axioms Stretto.C18.collision_lookup_isolated
 #print axioms Stretto.C18.collision_write_isolated
 #print axioms Stretto.C18.collision_remove_isolated
+#print axioms Stretto.C18.entry_changes_only_by_compatible_write
+#print axioms Stretto.C18.colliding_caller_leaves_entry
+#print axioms Stretto.C18.reachable_entry_changes_only_by_compatible_write
